@@ -250,6 +250,9 @@ class Interp:
                                 cont.append((s1, fn.bmap[labs[1]]))
                             else:
                                 if visits[blk.name] > 1 and not getattr(self.dom, 'fork_in_loops', False):
+                                    if getattr(self, 'prune_loops', False):
+                                        self.pruned = getattr(self, 'pruned', 0) + 1
+                                        continue
                                     raise Unsupported('loop condition not decided in %s block %s' % (fn.name, blk.name))
                                 s2 = s1.clone()
                                 s1.assume(c)
